@@ -38,8 +38,30 @@ func c04Gen(r *core.Run, idx int, kind string, n int) *c04History {
 	for i := 0; i < n; i++ {
 		h.IDs = append(h.IDs, fmt.Sprintf("s%dh%di%d", r.Seed, idx, i))
 	}
+	if kind == "big-reply-long-ids" {
+		// IDs as long as the stand-alone proxy's (64 hex digits): a reply listing 1000 of them is about 67 KB of JSON
+		for i := range h.IDs {
+			h.IDs[i] = fmt.Sprintf("%016x%016x%016x%016x", tokHash(h.IDs[i]+"a"), tokHash(h.IDs[i]+"b"), tokHash(h.IDs[i]+"c"), tokHash(h.IDs[i]+"d"))
+		}
+	}
 	ids := h.IDs
 	switch kind {
+	case "big-reply-long-ids":
+		h.Replies = append(h.Replies, append([]string(nil), ids...), append([]string(nil), ids...))
+		h.SlowPct = 0
+	case "long-lived-relisted":
+		// ids[0] is reported in every reply while more than 1000 other IDs come and go, never more than 51 outstanding at once
+		rest := ids[1:]
+		for len(rest) > 0 {
+			k := 50
+			if k > len(rest) {
+				k = len(rest)
+			}
+			h.Replies = append(h.Replies, append([]string{ids[0]}, rest[:k]...), nil)
+			rest = rest[k:]
+		}
+		h.Replies = append(h.Replies, []string{ids[0]}, []string{ids[0]})
+		h.SlowPct = 0
 	case "repeat-same-reply":
 		for k := 0; k < 2+rng.Intn(4); k++ {
 			h.Replies = append(h.Replies, append([]string(nil), ids...))
@@ -154,6 +176,10 @@ func c04PartA(r *core.Run, agentBin string, md *fakes.Metadata) {
 	for i := 0; i < edges; i++ {
 		n := []int{1000, 999, 500, 2}[i%4]
 		hs = append(hs, c04Gen(r, nh+i, "window-edge", n))
+	}
+	hs = append(hs, c04Gen(r, nh+edges, "big-reply-long-ids", 1000), c04Gen(r, nh+edges+1, "long-lived-relisted", 1101))
+	if !r.Quick() {
+		hs = append(hs, c04Gen(r, nh+edges+2, "big-reply-long-ids", 990), c04Gen(r, nh+edges+3, "long-lived-relisted", 1501), c04Gen(r, nh+edges+4, "long-lived-relisted", 1002))
 	}
 	var wg sync.WaitGroup
 	ch := make(chan *c04History, len(hs))
@@ -415,6 +441,9 @@ func c04PartA(r *core.Run, agentBin string, md *fakes.Metadata) {
 					}
 					if _, ok := px.Wait(id, rem); !ok {
 						missing++
+						if missing >= 20 {
+							break // refuted: the oracle below reports what is missing without waiting for each ID in turn
+						}
 					}
 				}
 				// let the script run out (re-listings after completion) and settle
